@@ -410,7 +410,7 @@ class Gen:
                 args.append(Wild(ty))
         return Neg(Atom(rel.name, args))
 
-    def gen_agg(self, env, lower):
+    def gen_agg(self, env, lower, allow_complex=True):
         """returns (Cmp binding literal, result var) or None"""
         ch = self.ch
         numeric = (NUMBER, UNSIGNED, FLOAT)
@@ -471,7 +471,7 @@ class Gen:
                 t = ch.choice(tys)
                 v = ch.choice(inner[t])
                 tgt = v
-                if ch.bool(0.2) and self.feat.functors:
+                if allow_complex and ch.bool(0.2) and self.feat.functors:
                     c = Const(gen_value(ch, t, self.feat, small_only=True), t)
                     tgt = Fn(ch.choice(["+", "*", "max"]), [v, c], t)
                 rty = t
@@ -498,9 +498,15 @@ class Gen:
         # variables grounded by positive atoms; only these are injected into aggregate bodies (a variable that
         # is grounded through `v = <aggregate>` and injected into another aggregate trips an assertion in
         # MaterializeAggregationQueries on the unchanged tree -- finding F14, owned by C14)
-        env_atoms = {k: list(v) for k, v in env.items()}
+        # (same family: a variable grounded only inside a record pattern `r([x,y])` is reported as "Ungrounded
+        # variable" when injected) -> inject only direct arguments of positive atoms
+        env_atoms = {}
+        for at in body:
+            for a in at.args:
+                if isinstance(a, Var) and a not in env_atoms.get(tname(a.ty), []):
+                    env_atoms.setdefault(tname(a.ty), []).append(a)
         nextra = ch.int(0, 3)
-        guard_needed = []
+        complex_used = False
         for _ in range(nextra):
             kinds = []
             if feat.constraints:
@@ -532,9 +538,13 @@ class Gen:
                             lit = Cmp("=", z, e, ty) if ch.bool(0.7) else Cmp("=", e, z, ty)
                             env.setdefault(ty, []).append(z)
             elif k == "agg":
-                r = self.gen_agg(env_atoms, lower)
+                # at most one aggregate with a non-variable target per clause: two of them make
+                # SimplifyAggregateTargetExpression pick the same fresh name and the translator asserts (F16, owned by C14)
+                r = self.gen_agg(env_atoms, lower, allow_complex=not complex_used)
                 if r is not None:
                     lit, z = r
+                    if lit.rhs.target is not None and not isinstance(lit.rhs.target, Var):
+                        complex_used = True
                     env.setdefault(tname(z.ty), []).append(z)
             if lit is not None:
                 body.append(lit)
